@@ -59,6 +59,9 @@ func NewDADouble(tr *Tracer) *DADouble {
 
 var _ coreda.DA = (*DADouble)(nil)
 
+// AcceptedCount returns the number of blobs the DA layer holds because of Submit calls.
+func (d *DADouble) AcceptedCount() int { d.mu.Lock(); defer d.mu.Unlock(); return len(d.Accepted) }
+
 func (d *DADouble) Current() uint64 { d.mu.Lock(); defer d.mu.Unlock(); return d.cur }
 func (d *DADouble) SetCurrent(h uint64) {
 	d.mu.Lock()
